@@ -25,7 +25,7 @@ def gen_dir(r, tier, tmp):
     for si in range(nser):
         series = G.gen_series(r, tier, S=r.randint(1, 3), T=r.choice([1, 2]), V=1, ordering='explicit')
         kind = r.choice(['new_uid', 'same_uid_new_number', 'same_but_orient_far', 'same_but_orient_near', 'new_protocol',
-                         'same_but_no_orient', 'same_but_no_protocol']) if si else 'first'
+                         'same_but_no_orient', 'same_but_no_protocol', 'same_but_number_zero', 'same_but_no_number']) if si else 'first'
         if si == 0:
             first = series
             uid, num, prot = '1.2.3.100', 1, 'protA'
@@ -46,6 +46,10 @@ def gen_dir(r, tier, tmp):
                 iop = list(np.array(iop) + np.array([0, 1e-6, 0, 0, 0, 0]))
             elif kind == 'same_but_no_protocol':
                 prot = None           # the element is absent: a group-by value of None
+            elif kind == 'same_but_number_zero':
+                num = 0               # a group-by value that is falsy but present: its own group, keyed 0
+            elif kind == 'same_but_no_number':
+                num = None
             series['iop'] = [float(x) for x in iop]
             # keep positions apart so that tuples do not collide when series fall into one group
             for f in series['files']:
@@ -56,6 +60,8 @@ def gen_dir(r, tier, tmp):
             f['meta'].pop('PatientName', None)
             if prot is None:
                 f['meta'].pop('ProtocolName', None)
+            if num is None:
+                f['meta'].pop('SeriesNumber', None)
             files.append((series, f, (uid, num, prot),
                           None if kind == 'same_but_no_orient' else [round(x, 9) for x in series['iop']], kind))
     paths, info = [], {}
